@@ -229,6 +229,7 @@ Section Inv.
     - (* insert *)
       match goal with Hi : insert_section _ _ _ _ _ _ = Some _ |- _ =>
         unfold insert_section in Hi;
+        replace (Nat.eqb size 0) with false in Hi by (symmetry; apply Nat.eqb_neq; lia);
         match type of Hi with context [evict ?a ?b ?c ?d ?e] =>
           destruct (evict a b c d e) as [es1|] eqn:Ee end;
           [|discriminate]; inversion Hi; subst; clear Hi end.
@@ -284,6 +285,7 @@ Section Inv.
     exfalso.
     match goal with Hi : insert_section _ _ _ _ _ _ = None |- _ =>
       unfold insert_section in Hi;
+      replace (Nat.eqb size 0) with false in Hi by (symmetry; apply Nat.eqb_neq; lia);
       match type of Hi with context [evict ?a ?b ?c ?d ?e] =>
         destruct (evict a b c d e) eqn:Ee end; [discriminate|] end.
     revert Ee. apply evict_terminates; [exact size_pos|lia|].
@@ -396,14 +398,22 @@ Section Stable.
   Qed.
 End Stable.
 
-(* a cache configured with size 0 can never finish an insertion: the loop condition
-   len(entries) >= 0 always holds (degenerate configuration, outside what the property
-   calls a configured size) *)
-Lemma evict_size_zero fuel now dur es : evict fuel 0 now dur es = None.
-Proof.
-  revert es. induction fuel as [|f IH]; intro es; simpl; [reflexivity|].
-  destruct (victim (now + dur) None es); [apply IH|reflexivity].
-Qed.
+(* a cache configured with size 0 (degenerate, but it is the zero value of an unset
+   configuration field) holds nothing and never spins: every lookup is handed its own fresh
+   answer *)
+Theorem size_zero_inserts_nothing dur t h a es : insert_section 0 dur t h a es = Some es.
+Proof. reflexivity. Qed.
 
-Theorem size_zero_spins dur t h a es : insert_section 0 dur t h a es = None.
-Proof. unfold insert_section. rewrite evict_size_zero. reflexivity. Qed.
+Theorem size_zero_caches_nothing dur strict t0 s :
+  reachable 0 dur strict t0 s -> entries s = [] /\ spinning s = false.
+Proof.
+  induction 1 as [|s l s' Hr [IHe IHs] Hs]; [split; reflexivity|].
+  inversion Hs; subst; simpl; try (split; assumption).
+  - match goal with Hc : check_section _ _ _ = _ |- _ => rewrite IHe in Hc; unfold check_section in Hc; simpl in Hc; inversion Hc end.
+  - match goal with Hc : check_section _ _ _ = _ |- _ => rewrite IHe in Hc; unfold check_section in Hc; simpl in Hc; inversion Hc; subst end.
+    split; reflexivity.
+  - match goal with Hi : insert_section _ _ _ _ _ _ = Some _ |- _ => rewrite size_zero_inserts_nothing in Hi; inversion Hi; subst end.
+    split; [exact IHe|reflexivity].
+  - match goal with Hi : insert_section _ _ _ _ _ _ = None |- _ => rewrite size_zero_inserts_nothing in Hi; discriminate end.
+  - rewrite IHe. split; reflexivity.
+Qed.
